@@ -42,6 +42,8 @@ impl Stmt {
 
 #[derive(Debug, Clone)]
 pub struct Scenario {
+    /// seed of the only entropy source the process has (see entropy.rs)
+    pub entropy: u64,
     pub sessions: Vec<Vec<Stmt>>,
     pub disk: SimDisk,
     pub fs: FsPlan,
@@ -50,7 +52,7 @@ pub struct Scenario {
 
 impl Scenario {
     pub fn single(script: Vec<Stmt>) -> Scenario {
-        Scenario { sessions: vec![script], disk: SimDisk::default(), fs: FsPlan::default(), sim: SimConfig::default() }
+        Scenario { entropy: 1, sessions: vec![script], disk: SimDisk::default(), fs: FsPlan::default(), sim: SimConfig::default() }
     }
 }
 
@@ -194,7 +196,23 @@ pub fn build_engine(world: &World, disk: SimDisk, plan: FsPlan) -> Result<(SimEn
 /// Execute a scenario in a fresh world. `announce` is called (from inside the
 /// client) with (session, stmt index) before each statement starts; used by
 /// child-process workers to tell the supervisor what is in flight.
-pub fn run_scenario(sc: &Scenario, chooser: Chooser, announce: Option<&dyn Fn(usize, usize)>) -> RunReport {
+pub fn run_scenario(sc: &Scenario, chooser: Chooser, announce: Option<&(dyn Fn(usize, usize) + Sync)>) -> RunReport {
+    // Every world runs on a fresh OS thread: std's per-thread hash keys and the
+    // simulated clock start from a state that is a function of the scenario.
+    std::thread::scope(|s| {
+        std::thread::Builder::new()
+            .stack_size(256 << 20)
+            .spawn_scoped(s, || {
+                crate::entropy::set_entropy(sc.entropy);
+                run_scenario_here(sc, chooser, announce)
+            })
+            .expect("spawn world thread")
+            .join()
+            .expect("world thread")
+    })
+}
+
+fn run_scenario_here(sc: &Scenario, chooser: Chooser, announce: Option<&(dyn Fn(usize, usize) + Sync)>) -> RunReport {
     let mut world = World::new(sc.sim.clone(), chooser);
     let (engine, fs) = match build_engine(&world, sc.disk.clone(), sc.fs.clone()) {
         Ok(x) => x,
@@ -206,7 +224,7 @@ pub fn run_scenario(sc: &Scenario, chooser: Chooser, announce: Option<&dyn Fn(us
     let mut client_ids: Vec<TaskId> = Vec::new();
     // `announce` must outlive the futures; erase the lifetime through a raw
     // pointer that is only dereferenced while `run_scenario` is on the stack.
-    let announce_ptr: Option<*const dyn Fn(usize, usize)> = announce.map(|a| unsafe { std::mem::transmute::<&dyn Fn(usize, usize), *const dyn Fn(usize, usize)>(a) });
+    let announce_ptr: Option<*const (dyn Fn(usize, usize) + Sync)> = announce.map(|a| unsafe { std::mem::transmute::<&(dyn Fn(usize, usize) + Sync), *const (dyn Fn(usize, usize) + Sync)>(a) });
 
     for (si, script) in sc.sessions.iter().enumerate() {
         let cs = Rc::new(RefCell::new(ClientShared { outcomes: Vec::new(), current: 0, boundary: false }));
